@@ -78,6 +78,75 @@ type YOpts struct {
 	SeqIndent bool `json:"seq_indent,omitempty"` // indent "- " under its key
 	Header    bool `json:"header,omitempty"`     // emit the "#%Validation Profile 1.0" first line
 	Literal   bool `json:"literal,omitempty"`    // print string values of block mappings as literal block scalars (|-) where that denotes the same string
+	NumStyle  int  `json:"num_style,omitempty"`  // spelling of numbers: 0 canonical, 1.. alternative YAML spellings of the same number (see SpellInt / SpellFloat)
+}
+
+// SpellInt writes an integer in one of the spellings YAML gives it: explicit plus sign, hexadecimal, octal.
+// Styles that do not apply to the value fall back to the canonical decimal form.
+func SpellInt(i int64, style int) string {
+	dec := strconv.FormatInt(i, 10)
+	switch style {
+	case 1, 4, 7:
+		if i >= 0 {
+			return "+" + dec
+		}
+	case 2:
+		if i >= 0 {
+			return "0x" + strconv.FormatInt(i, 16)
+		}
+	case 3:
+		if i >= 0 {
+			return "0o" + strconv.FormatInt(i, 8)
+		}
+	}
+	return dec
+}
+
+// SpellFloat writes a decimal number in one of the spellings YAML gives it: explicit plus sign, no digit before or
+// after the point, exponent forms, redundant zeros. All denote the same number (the printer's users confirm that
+// with yaml.v3).
+func SpellFloat(f float64, style int) string {
+	s := strconv.FormatFloat(f, 'f', -1, 64)
+	if !strings.Contains(s, ".") {
+		s += ".0"
+	}
+	neg := strings.HasPrefix(s, "-")
+	abs := strings.TrimPrefix(s, "-")
+	sign := ""
+	if neg {
+		sign = "-"
+	}
+	switch style {
+	case 1:
+		if !neg {
+			return "+" + abs
+		}
+	case 2:
+		if strings.HasPrefix(abs, "0.") {
+			return sign + abs[1:] // .5
+		}
+	case 3:
+		return sign + "0" + abs // 00.5
+	case 4:
+		return s + "0" // 0.50
+	case 5:
+		e := strconv.FormatFloat(f, 'e', -1, 64) // 5e-01
+		return e
+	case 6:
+		e := strconv.FormatFloat(f, 'E', -1, 64)
+		return e
+	case 7:
+		// mantissa ending in a point before the exponent: 5.e-7
+		e := strconv.FormatFloat(f, 'e', -1, 64)
+		if k := strings.Index(e, "e"); k > 0 && !strings.Contains(e[:k], ".") {
+			if !neg {
+				return "+" + e[:k] + "." + e[k:]
+			}
+			return e[:k] + "." + e[k:]
+		}
+		return e
+	}
+	return s
 }
 
 // Print renders the tree.
@@ -281,13 +350,9 @@ func (p *yprinter) key(k string, inFlow bool) string {
 func (p *yprinter) scalar(y *Y, inFlow bool) string {
 	switch y.Kind {
 	case "int":
-		return strconv.FormatInt(y.I, 10)
+		return SpellInt(y.I, p.o.NumStyle)
 	case "float":
-		s := strconv.FormatFloat(y.F, 'f', -1, 64)
-		if !strings.Contains(s, ".") {
-			s += ".0"
-		}
-		return s
+		return SpellFloat(y.F, p.o.NumStyle)
 	case "bool":
 		return strconv.FormatBool(y.B)
 	default:
